@@ -641,7 +641,14 @@ class An:
             if r[0] == 'call' and r[1] == 'core::ops::RangeInclusive::new':
                 return ('unknown', 'inclusive range slice')
             return mk_elem(args[0], r)
-        if name == 'split_at_mut' and len(args) == 2 and 'slice' in path and not is_local_impl:
+        if name == 'collect' and len(args) == 1 and t['dest_ty'].startswith(('std::vec::Vec<', 'alloc::vec::Vec<')):
+            x = args[0]
+            if x[0] == 'call' and x[1] in ('core::iter::Iterator::copied', 'core::iter::Iterator::cloned') and len(x[2]) == 1:
+                y = x[2][0]
+                if y[0] == 'call' and y[1].endswith('::iter') and 'slice' in y[1] and len(y[2]) == 1:
+                    # s.iter().copied().collect::<Vec<_>>() is s.to_vec()
+                    return ('call', 'std::slice::<impl [T]>::to_vec', (y[2][0],), site[0], self.callee_info(t))
+        if name in ('split_at_mut', 'split_at') and len(args) == 2 and 'slice' in path and not is_local_impl:
             # (&mut x[..k], &mut x[k..]): two views, so that writes through either half are writes to x at that range
             return ('agg', 'tuple', 'tuple', (mk_slice(args[0], None, args[1]), mk_slice(args[0], args[1], None)), ('0', '1'))
         if path in ('core::slice::<impl [T]>::len',) or (name == 'len' and 'slice' in path):
